@@ -257,6 +257,8 @@ type Explorer struct {
 	Execs          int64
 	Budget         int64 // stop after this many executions (0 = unlimited); reported by Capped
 	Capped         bool
+	// Stop, when set, is polled before every execution; true ends the exploration (reported by Capped).
+	Stop func() bool
 }
 
 func preemptionsBefore(x *Exec, i int) int {
@@ -279,6 +281,10 @@ func (e *Explorer) Explore() {
 // split happens at the first preemption, so that subtrees of comparable size are distributed).
 func (e *Explorer) explore(prefix []int, sharded bool) {
 	if e.Budget > 0 && e.Execs >= e.Budget {
+		e.Capped = true
+		return
+	}
+	if e.Capped || (e.Stop != nil && e.Execs%64 == 0 && e.Stop()) {
 		e.Capped = true
 		return
 	}
